@@ -328,7 +328,7 @@ fn gen_op(prop: &str, d: &Desc, cur: &Value, avail: usize, rng: &mut Rng) -> Opt
         Desc::Flex { item, .. } => {
             let len = cur.fields().len();
             let budget = *rng.pick(&[0usize, 1, 4, 12, avail / 3, avail]);
-            Some(match rng.below(if prop == "C13" { 7 } else { 12 }) {
+            Some(match rng.below(if prop == "C13" { 9 } else { 12 }) {
                 0..=4 => Op::FPush(gen_value(item, rng, budget.max(1)), rng.next()),
                 5 | 6 => {
                     if item.has_default() {
